@@ -40,7 +40,8 @@ def strategy(tier):
     flt = st.sampled_from(["none", "none", "address", "identifier", "identifier-absent", "both"])
     jitter = st.one_of(st.just([]), st.lists(st.sampled_from([0.0, 0.0, 0.01, 0.03, 0.05]), min_size=1, max_size=7))
     asyncc = st.builds(lambda spas, f, t, j, s, again, blank: dict({"k": "async", "spas": spas, "filter": f, "target": t, "jitter": j, "suspend": s},
-                                                                   **({"again": again} if again else {}), **({"blank": blank} if blank else {})),
+                                                                   **({"again": again} if again else {}), **({"blank": blank} if blank else {}),
+                                                                   **({"alias": True} if f in ("address", "both") and (t + len(spas)) % 3 == 0 else {})),
                        st.lists(spa, max_size=6, unique_by=lambda s: s[0]), flt, st.integers(0, 5), jitter,
                        st.lists(st.sampled_from([0.0, 0.0, 0.3, 0.6, 1.5, 5.0, 12.0]), max_size=4), st.sampled_from([0, 0, 0, 1, 2, 3]),
                        st.sampled_from([None, None, None, "identifier", "address", "both"]))
@@ -84,6 +85,11 @@ def _run_async(res, case):
     addr = ident = None
     if flt in ("address", "both"):
         addr = target.addr[0] if target else "10.0.0.99"
+        if target is not None and case.get("alias"):
+            # the configured address is only a destination for sendto(): a host name or a forwarded address that the replies' source
+            # address does not spell the same way
+            addr = f"spa-{case['target'] % len(peers)}.home.arpa"
+            target.aliases = {addr}
     if flt in ("identifier", "both"):
         ident = target.sim.vp_identifier.decode("latin-1") if target else "SPAzz:zz"
     if flt == "identifier-absent":
